@@ -196,6 +196,7 @@ class BackgroundService(abc.ABC):
         """
         # We need to account for tasks that were created between when we started
         # awaiting and we finished awaiting.
+        exceptions: list[BaseException] = []
         while self._tasks:
             done, pending = await asyncio.wait(self._tasks)
             assert not pending
@@ -204,7 +205,6 @@ class BackgroundService(abc.ABC):
             # started waiting.
             self._tasks = self._tasks - done
 
-            exceptions: list[BaseException] = []
             for task in done:
                 try:
                     # This will raise a CancelledError if the task was cancelled or any
@@ -212,10 +212,12 @@ class BackgroundService(abc.ABC):
                     _ = task.result()
                 except BaseException as error:  # pylint: disable=broad-except
                     exceptions.append(error)
-            if exceptions:
-                raise BaseExceptionGroup(
-                    f"Error while stopping background service {self}", exceptions
-                )
+        # Errors are only raised once all tasks are finished, including the ones created
+        # while we were waiting.
+        if exceptions:
+            raise BaseExceptionGroup(
+                f"Error while stopping background service {self}", exceptions
+            )
 
     def __await__(self) -> collections.abc.Generator[None, None, None]:
         """Await this background service.
